@@ -165,6 +165,7 @@ def make_scenario(rnd, counts, nues_choices=None, fault=None, opts=None):
             ue["withAmbr"] = (s_ // 2) % 2 == 0
             # 139 is the id of the tunnel IE that follows the bit rate IE in the transfer: its encoding contains the octets 00 8B
             ue["ambrDl"] = num([139, 1 << 32, 4000000000000, 0, 256, 35584][s_ % 6])
+            ue["ambr"] = [[6, 0, 1, 6, 0, 1], [0, 0, 1, 6, 0, 1], [1, 255, 255, 0, 0, 0]][(d + u) % 3]      # session AMBR: unit 0 = "value is not used"
             ue["setupMsgNas"] = (d + u) % 2 == 1       # another NAS message in the message-level NAS-PDU IE of the setup request
             if opts.get("slow") and u == opts["slow"] - 1:
                 ue["setupDelay"] = 17                  # the SMF answers this UE's session request after 17 s
